@@ -481,6 +481,12 @@ func (vx *Vaxis) Refresh() {
 	vx.Render()
 }
 
+// unknownCell is what the last-frame copy holds for a cell whose content on
+// the terminal is not known (it is covered by a wide glyph). It equals no
+// cell an application can set, never-written cells included, so the cell is
+// drawn again as soon as the glyph no longer covers it
+var unknownCell = Cell{sixel: true}
+
 func (vx *Vaxis) render() {
 	vx.mu.Lock()
 	defer vx.mu.Unlock()
@@ -545,7 +551,7 @@ outerNew:
 						break
 					}
 					// null out any cells we end up skipping
-					vx.screenLast.buf[row][col+i] = Cell{}
+					vx.screenLast.buf[row][col+i] = unknownCell
 				}
 				col += skip
 				continue
@@ -750,7 +756,7 @@ outerNew:
 					break
 				}
 				// null out any cells we end up skipping
-				vx.screenLast.buf[row][col+i] = Cell{}
+				vx.screenLast.buf[row][col+i] = unknownCell
 			}
 			col += skip
 		}
